@@ -65,3 +65,13 @@ PROPS["C05"] = dict(
     trusted=STUBS_ADDSUB + ["contract stub: BigUint::modinv -> None | Some(x), x < |m| canonical, x = 0 only if |m| = 1",
                             "contract stub: BigUint::modpow -> canonical x < |m| (panics on zero modulus)"],
 )
+
+PROPS["C19"] = dict(
+    inject=[("src/bigint.rs", "c19/bigint.rs")],
+    kani=[dict(filter_q="c19_q_", filter_t=["c19_q_", "c19_t_"], jobs=14, timeout_q=200, timeout_t=900)],
+    functions=["Neg", "Signed::{abs,abs_sub,signum,is_positive,is_negative}", "sign", "magnitude", "into_parts", "from_biguint",
+               "to_biguint", "ToBigInt/ToBigUint/TryFrom", "Zero/One", "Neg/Mul for Sign"],
+    bounds_quick="magnitudes of 0..2 digits (3 in thorough), all three signs, every digit symbolic; Sign rules exhaustive",
+    outside="magnitudes longer than 3 digits",
+    trusted=STUBS_ADDSUB,
+)
